@@ -161,6 +161,12 @@ class Parser:
             else:
                 self.stack.extend(top.production)
 
+    def run_pending_actions(self):
+        """Perform the actions on top of the stack (e.g. closing the records
+        that were just read) without consuming another symbol"""
+        while self.stack and isinstance(self.stack[-1], Action):
+            self.action_function(self.stack.pop())
+
     def drain_actions(self):
         while True:
             top = self.stack.pop()
